@@ -654,6 +654,9 @@ pub fn walk(args: &[String]) {
         }
     }
 
+    if shard + 1 == of && arg(args, "long", 4300u64) > 0 {
+        long_distinct_game(&mut e, &mut rng, arg(args, "long", 4300u64) as usize);
+    }
     // random games with nested excursions, reloads through FEN and deliberate repetitions
     for g in 0..games {
         if g % of != shard {
@@ -762,6 +765,72 @@ pub fn walk(args: &[String]) {
     writeln!(e.out, "END {}", e.positions).unwrap();
 }
 
+/// one very long game of reversible moves that visits thousands of DISTINCT positions (kings and rooks behind untouched pawn
+/// walls), then an irreversible move, a few more moves and take-backs: whatever bounds, trims or resets the record of earlier
+/// positions shows in the state dumps (which are written only now and then: a dump is as long as the game)
+fn long_distinct_game<W: Write>(e: &mut Emit<W>, rng: &mut Rng, plies: usize) {
+    let fen = "r3k2r/pppppppp/8/8/8/8/PPPPPPPP/R3K2R w KQkq - 0 1";
+    writeln!(e.out, "N {fen}").unwrap();
+    e.seen.clear();
+    let mut b = Board::from_fen(fen);
+    e.block(&mut b);
+    let mut seen = std::collections::HashSet::new();
+    seen.insert(bv::key_u64(b.zkey));
+    let mut made = 0usize;
+    for ply in 0..plies {
+        let legal: Vec<Ply> = b
+            .get_legal_moves()
+            .into_iter()
+            .filter(|m| m.captured_piece.is_none() && m.promoted_to.is_none() && !matches!(m.piece, Kind::Pawn(_)))
+            .collect();
+        if legal.is_empty() {
+            break;
+        }
+        let off = rng.below(legal.len() as u64) as usize;
+        let mut pick = legal[off];
+        for k in 0..legal.len() {
+            let m = legal[(off + k) % legal.len()];
+            b.make_move(m);
+            let fresh = !seen.contains(&bv::key_u64(b.zkey));
+            b.unmake_move();
+            if fresh {
+                pick = m;
+                break;
+            }
+        }
+        writeln!(e.out, "m {}", move_fields(&pick)).unwrap();
+        // the position left behind belongs to the record from now on (`block` would have noted it)
+        if seen.insert(bv::key_u64(b.zkey)) || !e.seen.contains(&b.zkey) {
+            if !e.seen.contains(&b.zkey) {
+                e.seen.push(b.zkey);
+            }
+        }
+        b.make_move(pick);
+        made += 1;
+        seen.insert(bv::key_u64(b.zkey));
+        if ply % 1500 == 1499 {
+            e.block(&mut b);
+        }
+    }
+    e.block(&mut b);
+    // an irreversible move, then on with full blocks
+    for step in 0..12 {
+        let legal = b.get_legal_moves();
+        let m = if step == 0 { legal.iter().find(|m| matches!(m.piece, Kind::Pawn(_))).copied() } else { legal.first().copied() };
+        let Some(m) = m else { break };
+        writeln!(e.out, "M {}", move_fields(&m)).unwrap();
+        b.make_move(m);
+        made += 1;
+        e.block(&mut b);
+    }
+    for _ in 0..made.min(40) {
+        b.unmake_move();
+        writeln!(e.out, "U").unwrap();
+        writeln!(e.out, "D {}", bv::dump(&b)).unwrap();
+    }
+    writeln!(e.out, "# long game: {} distinct positions", seen.len()).unwrap();
+}
+
 /// `fen`: a generated family of FEN strings (variants of positions met on random walks)
 pub fn fen_stream(args: &[String]) {
     let count: u64 = arg(args, "count", 2000);
@@ -796,6 +865,52 @@ pub fn fen_stream(args: &[String]) {
         special.push("4k3/8/44/8/8/3P4/8/4K3 w - - 0 1".to_string());
         special.push("4k3/8/8/11111111/8/2P5/8/4K3 w - - 0 1".to_string());
         special.push("4k3/8/8/1p6/8/8/8/4K3 w - - 0 1".to_string());
+        // several pawns of the side that just made the double step on the en-passant file (doubled, tripled, quadrupled), a
+        // capturer on either side: whatever the loader reconstructs about the last move must describe THE pushed pawn
+        for file in 0..8usize {
+            for extra in 1..=3usize {
+                for side in [-1i32, 1] {
+                    let cf = file as i32 + side;
+                    if !(0..8).contains(&cf) {
+                        continue;
+                    }
+                    for white_pushed in [false, true] {
+                        let mut g: [Option<char>; 64] = [None; 64];
+                        let kf = if file < 4 { 7 } else { 0 };
+                        g[kf] = Some('K');
+                        g[56 + kf] = Some('k');
+                        if white_pushed {
+                            g[3 * 8 + file] = Some('P'); // the pawn that went e2-e4
+                            for k in 0..extra {
+                                g[(4 + k) * 8 + file] = Some('P');
+                            }
+                            g[3 * 8 + cf as usize] = Some('p');
+                            special.push(format!("{} b - {}3 0 30", super::grid_placement(&g), (b'a' + file as u8) as char));
+                        } else {
+                            g[4 * 8 + file] = Some('p'); // the pawn that went e7-e5
+                            for k in 0..extra {
+                                g[(3 - k) * 8 + file] = Some('p');
+                            }
+                            g[4 * 8 + cf as usize] = Some('P');
+                            special.push(format!("{} w - {}6 0 30", super::grid_placement(&g), (b'a' + file as u8) as char));
+                        }
+                    }
+                }
+            }
+        }
+        // twins: the same squares occupied by the same colours, the same material, two pieces of one colour exchanged —
+        // loaded right after each other (whatever a loader remembers of the previous position must not leak into the next)
+        for (a, b2) in [("8/8/4k3/8/8/2N2B2/8/4K3 w - - 0 1", "8/8/4k3/8/8/2B2N2/8/4K3 w - - 0 1"),
+            ("r3k2r/8/8/8/8/8/8/R3K2R w KQkq - 0 1", "r3k2r/8/8/8/8/8/8/R3K2R w KQkq - 0 1"),
+            ("rnbqkbnr/pppppppp/8/8/8/8/PPPPPPPP/RNBQKBNR w KQkq - 0 1", "rbnqkbnr/pppppppp/8/8/8/8/PPPPPPPP/RNBQKBNR w KQkq - 0 1"),
+            ("rnbqkbnr/pppppppp/8/8/8/8/PPPPPPPP/RNBQKBNR w KQkq - 0 1", "rnbqkbnr/pppppppp/8/8/8/8/PPPPPPPP/RNQBKBNR w KQkq - 0 1"),
+            ("4k3/2q2r2/8/8/8/8/2Q2R2/4K3 b - - 3 9", "4k3/2r2q2/8/8/8/8/2Q2R2/4K3 b - - 3 9"),
+            ("4k3/2q2r2/8/8/8/8/2Q2R2/4K3 b - - 3 9", "4k3/2q2r2/8/8/8/8/2R2Q2/4K3 b - - 3 9"),
+            ("4k3/8/8/3pP3/8/8/2B1N3/4K3 w - d6 0 5", "4k3/8/8/3pP3/8/8/2N1B3/4K3 w - d6 0 5")] {
+            special.push(a.to_string());
+            special.push(b2.to_string());
+            special.push(a.to_string());
+        }
         for text in special {
             let mut loaded = Board::from_fen(&text);
             if loaded.is_in_check(loaded.current_turn.opposite()) {
